@@ -119,6 +119,8 @@ def run_impl(case):
                 data = {'cell': data}
             data['time'] = float(t)
             em.emit({'table': 'history', 'data': data})
+            if data.get('time') != float(t):
+                obs['emit_arg_changed'] = sorted(data)
             if other is not None:
                 other.emit({'table': 'history', 'data': {'time': float(t), 'marker': t}})
         if other is not None:
@@ -192,6 +194,8 @@ def oracle(case, impl):
     if impl.get('shared_ok') is False:
         fails.append('shared-history: a second `shared_ram` emitter does not return what the first one emitted (the '
                      'instances share one table)')
+    if 'emit_arg_changed' in impl:
+        fails.append(f'emit-argument: emit() changed the dictionary it was handed (keys left: {impl["emit_arg_changed"]})')
     if impl.get('raw_stable') is False:
         fails.append('raw-data-changed: get_data() differs after the deserialized / timeseries views were read')
     if impl['deserialized'] != want_rows:
